@@ -31,19 +31,26 @@ class Module:
         if name in CANONICALISE:
             canonicalise_locals(self.tree)
         self.normal_log = {}
+        self.identifiers = {n.id for n in ast.walk(self.tree) if isinstance(n, ast.Name)} | \
+            {n.attr for n in ast.walk(self.tree) if isinstance(n, ast.Attribute)} | \
+            {a.name for n in ast.walk(self.tree) if isinstance(n, ast.ImportFrom) for a in n.names}
+        self._symtable = None
+        self._funcs = None
+
+    def finish(self, used_elsewhere=frozenset()):
+        """normal form (see normalise.py) and parent links; `used_elsewhere`: identifiers other modules mention"""
         if os.environ.get("TPMSA_NO_NORMALISE") != "1":
             from . import normalise
             try:
-                self.normal_log = normalise.normalise(self.tree, name)
+                self.normal_log = normalise.normalise(self.tree, self.name, keep=used_elsewhere)
             except RecursionError as e:  # pragma: no cover
-                raise AnalysisError(f"normaliser failed on {relpath}: {e}")
-            if name in CANONICALISE and any(self.normal_log.values()):
+                raise AnalysisError(f"normaliser failed on {self.relpath}: {e}")
+            if self.name in CANONICALISE and any(self.normal_log.values()):
                 canonicalise_locals(self.tree)
         for node in ast.walk(self.tree):
             for child in ast.iter_child_nodes(node):
                 child._parent = node
         self.tree._parent = None
-        self._symtable = None
         self._funcs = None
 
     @property
@@ -197,6 +204,12 @@ class Project:
                     )
                 except SyntaxError as e:
                     raise AnalysisError(f"cannot parse {path}: {e}")
+        for name, m in self.modules.items():
+            others = set()
+            for n2, m2 in self.modules.items():
+                if n2 != name:
+                    others |= m2.identifiers
+            m.finish(frozenset(others))
 
     def module(self, name) -> Module:
         m = self.modules.get(name)
